@@ -3,7 +3,7 @@ import itertools
 
 from bibtexparser.library import Library
 from bibtexparser.middlewares import AddEnclosingMiddleware, RemoveEnclosingMiddleware
-from bibtexparser.model import Entry, Field, String
+from bibtexparser.model import Entry, Field, ParsingFailedBlock, String
 from bibtexparser.splitter import Splitter
 
 from .. import bibgen, harness, libgen, tokens
@@ -175,7 +175,80 @@ def o_intrule(inp):
     return (None, is_int, cls)
 
 
-SUBS = {"strip_reuse": o_strip_reuse, "reparse": o_reparse, "intrule": o_intrule}
+def _enclose_ref(c, kind):
+    return "{" + c + "}" if kind == "{" else ('"' + c + '"' if kind == '"' else c)
+
+
+def o_entry(inp):
+    """A whole entry, also one that repeats a field key (what a DuplicateFieldKeyBlock hands out as its inner entry):
+    inp {"fields": [[key, value], ...], "inplace": bool, "via": "model"|"parse"}.  Every field - by position - is stripped
+    by one layer, restored exactly under reuse, and given the default enclosing (or the integer rule) without reuse."""
+    fields = [[k, v.strip() if isinstance(v, str) else v] for k, v in inp["fields"]]
+    cls = ["entry"]
+    keys = [k for k, _ in fields]
+    repeated = len(set(keys)) < len(keys)
+    if repeated:
+        cls.append("repeated-field-key")
+    if inp.get("via") == "parse":
+        text = "@a{k, " + ", ".join(f"{k} = {v}" for k, v in fields) + "}"
+        lib0 = Splitter(text).split()
+        b = lib0.blocks[0] if len(lib0.blocks) == 1 else None
+        e = b.ignore_error_block if isinstance(b, ParsingFailedBlock) else b
+        if not isinstance(e, Entry) or [[f.key, f.value] for f in e.fields] != fields:
+            return (None, False, ("entry-not-parsed-as-written",))  # C02's / C09's subject
+        cls.append("inner-entry-of-failed-block" if isinstance(b, ParsingFailedBlock) else "parsed-entry")
+        lib = Library([e])
+    else:
+        lib = Library([Entry("article", "k", [Field(k, v, i + 1) for i, (k, v) in enumerate(fields)], 0, "raw")])
+    rem = libgen.maybe_preuse(RemoveEnclosingMiddleware(allow_inplace_modification=inp["inplace"]), repr(fields), same=lib).transform(lib)
+    ent = rem.blocks[0]
+    if not isinstance(ent, Entry) or len(ent.fields) != len(fields):
+        return (("entry:strip-changed-fields", repr(ent), f"{len(fields)} fields"), True, cls)
+    stripped = [strip1(v) for _, v in fields]
+    for f, (k, v), (c, kind) in zip(ent.fields, fields, stripped):
+        if f.key != k or f.value != c:
+            return (("entry:strip", f"{fields!r}: {f.key} = {f.value!r}", f"{k} = {c!r}"), True, cls)
+    meta = ent.parser_metadata.get("removed_enclosing") or {}
+    if not repeated:
+        for (k, _), (_, kind) in zip(fields, stripped):
+            if meta.get(k, meta.get(k.lower())) != kind:
+                return (("entry:recorded-kind", f"{fields!r}: {meta!r}", f"{k}: {kind!r}"), True, cls)
+    last_kind = {}
+    for (k, _), (_, kind) in zip(fields, stripped):
+        last_kind[k] = kind
+    known_shaped = None
+    for d, r, e in OPTION_SETS:
+        add = AddEnclosingMiddleware(reuse_previous_enclosing=r, enclose_integers=e, default_enclosing=d, allow_inplace_modification=False)
+        back = libgen.maybe_preuse(add, (repr(fields), d, r, e), same=rem).transform(rem).blocks[0]
+        if not isinstance(back, Entry) or len(back.fields) != len(fields):
+            return (("entry:add-changed-fields", repr(back), f"{len(fields)} fields"), True, cls)
+        for f, (k, v), (c, kind) in zip(back.fields, fields, stripped):
+            if r:
+                want = v
+            else:
+                if not c.isascii() and c.isdigit():
+                    continue  # non-ASCII digits: not settled by the statement
+                want = c if (k in NUMERIC_FIELDS and c.isascii() and c.isdigit() and not e) else _enclose_ref(c, d)
+            if f.key == k and f.value == want:
+                continue
+            desc = (f"{fields!r} default {d!r} reuse={r} enclose_integers={e}: field {k!r} (was {v!r}) -> {f.key} = {f.value!r}", repr(want))
+            if r and f.key == k and keys.count(k) > 1 and last_kind[k] != kind and f.value == _enclose_ref(c, last_kind[k]):
+                # F-22 shape: the enclosing is recorded per field *key*; another occurrence of the key, enclosed differently, overwrote it
+                known_shaped = known_shaped or (("entry:reuse:repeated-key-enclosed-differently",) + desc, True, cls)
+                continue
+            return ((("entry:reuse-not-restored" if r else "entry:default-enclosing"),) + desc, True, cls)
+    if known_shaped:
+        return known_shaped
+    return (None, True, cls)
+
+
+def kf_repeated_key_enclosed_differently(sub, inp, fail):
+    """F-22: the only deviation in the entry is that occurrences of one field key that were enclosed differently come
+    back with the enclosing of the last occurrence (the signature is only given to exactly that shape)."""
+    return sub == "entry" and fail[0] == "entry:reuse:repeated-key-enclosed-differently"
+
+
+SUBS = {"strip_reuse": o_strip_reuse, "reparse": o_reparse, "intrule": o_intrule, "entry": o_entry}
 
 FRAMES = {"F1": ("@a{k, f = ", ", g = {z}}\n"), "F2": ("@string{s = ", "}\n@a{k}")}
 
@@ -221,8 +294,24 @@ def w_intrule(acc):
                 acc.run("strip_reuse", o_strip_reuse, {"value": v.strip(), "kind": kind, "inplace": inplace}, True)
 
 
+ENTRY_KEYS = ["note", "Note", "year"]
+ENTRY_VALUES = ["{First}", '"Second {n}"', "{}", "7", "{1999}", "abc", '{a} # "b"', '"{"}"']
+
+
+def w_entries(acc, first):
+    pool = [[k, v] for k in ENTRY_KEYS for v in ENTRY_VALUES]
+    for nf in (1, 2, 3):
+        for rest in itertools.product(pool, repeat=nf - 1):
+            fields = [pool[first]] + [list(x) for x in rest]
+            for inplace in (True, False):
+                acc.run("entry", o_entry, {"fields": fields, "inplace": inplace, "via": "parse" if (first + nf + inplace) % 2 else "model"}, True)
+
+
 def w_random(acc, n, seed):
     from hypothesis import strategies as st
+
+    ef = st.lists(st.tuples(st.sampled_from(ENTRY_KEYS + ["title", "month", "NOTE"]), st.one_of(st.sampled_from(ENTRY_VALUES), st.lists(st.integers(0, 255), min_size=4, max_size=40).map(lambda ints: bibgen.gen_value(bibgen.Src(ints), 3)))).map(list), min_size=1, max_size=7)
+    harness.run_hyp(acc, "entry", o_entry, st.fixed_dictionaries({"fields": ef, "inplace": st.booleans(), "via": st.sampled_from(["model", "parse"])}), max(200, n // 2), seed)
 
     vals = st.lists(st.integers(0, 255), min_size=4, max_size=80).map(lambda ints: bibgen.gen_value(bibgen.Src(ints), 4))
     sr = st.fixed_dictionaries({"value": vals, "kind": st.sampled_from(["field", "string"]), "inplace": st.booleans(),
@@ -240,7 +329,7 @@ def w_random(acc, n, seed):
 def run(chk):
     quick = chk.tier == "quick"
     L = 5 if quick else 6
-    tasks = [("w_intrule", ())]
+    tasks = [("w_intrule", ())] + [("w_entries", (i,)) for i in range(len(ENTRY_KEYS) * len(ENTRY_VALUES))]
     for fr in FRAMES:
         tasks += [("w_frame_values", (fr,) + t) for t in tokens.seq_tasks(tokens.SIGMA_F, L, prefix_len=2)]
     n_rand = 16000 if quick else 300000
@@ -257,7 +346,8 @@ def run(chk):
         "(2) AddEnclosing(reuse) after removal restores the value exactly for all option sets; (3) for brace-balanced "
         "contents not ending in a backslash (no bare quote outside braces for the quote default) the default enclosing "
         "re-parses as one field / string with that exact text and the same content; (4) integer rule over numeric and "
-        "other keys x all options, no exception. Non-trivial: the value is enclosed, nested, a concatenation, empty, a "
+        "other keys x all options, no exception; (5) whole entries, also with a repeated field key (built, or the inner entry of a "
+        "duplicate-field block): every field by position stripped, restored under reuse, default-enclosed / integer rule without. Non-trivial: the value is enclosed, nested, a concatenation, empty, a "
         "single character, in the re-parse domain, or an integer."
     )
-    chk.required_classes = ["key-with-upper-case", "enclosed:{", 'enclosed:"', "enclosed:no-enclosing", "nested", "concatenation", "single-char", "string", "field", "reparse:{", 'reparse:"', "intrule", "int-value"]
+    chk.required_classes = ["repeated-field-key", "inner-entry-of-failed-block", "key-with-upper-case", "enclosed:{", 'enclosed:"', "enclosed:no-enclosing", "nested", "concatenation", "single-char", "string", "field", "reparse:{", 'reparse:"', "intrule", "int-value"]
